@@ -17,6 +17,43 @@ props.META["C17"] = dict(
     note="trusted: loopback RPC; deployments are sampled (1-3 servers, per-shard maxima 2-6); the per-shard limit heuristic is deliberately outside the oracle")
 
 
+def apalache_inductive(res):
+    import shutil
+    import subprocess
+    exe = shutil.which("apalache-mc")
+    if not exe:
+        res.notes.append("apalache-mc not found: the unbounded argument for Rpc.tla was not re-checked (TLC results stand)")
+        return
+    work = vlib.subdir("apalache")
+    shutil.copy(os.path.join(vlib.VERIF, "spec", "Rpc.tla"), work)
+
+    def run(cinit, init, length):
+        try:
+            p = subprocess.run([exe, "check", f"--cinit={cinit}", f"--init={init}", "--inv=IndInv", f"--length={length}",
+                                f"--out-dir={os.path.join(work, 'out')}", "Rpc.tla"],
+                               cwd=work, capture_output=True, text=True, timeout=600)
+        except subprocess.TimeoutExpired:
+            raise Inconclusive("apalache-mc timed out on Rpc.tla")
+        out = p.stdout + p.stderr
+        if "The outcome is: NoError" in out:
+            return "ok"
+        if "The outcome is: Error" in out:
+            return "refuted"
+        raise Inconclusive("apalache-mc gave no verdict on Rpc.tla: " + out[-800:])
+    base = run("ConstInit", "Init", 0)
+    step = run("ConstInit", "IndInit", 1)
+    neg = run("ConstInitNeg", "IndInit", 1)
+    if base != "ok" or step != "ok":
+        raise Inconclusive(f"Rpc.tla: IndInv is not inductive (base {base}, step {step}): the design argument does not stand")
+    if neg != "refuted":
+        raise Inconclusive("Rpc.tla: the inductive check accepts the negative configuration (vacuous)")
+    res.coverage.setdefault("design_selftests", []).append(
+        "a dead cached connection counts as an attempt: Apalache refutes the inductive step for open Retries / MaxCrashes")
+    res.coverage["unbounded_argument"] = ("Apalache: IndInv (TypeOK, NilMeansExecuted, ResultOnlyAtEnd, replied => executed, loop-counter "
+                                          "facts) of Rpc.tla holds in Init and is preserved by Next for Retries in 1..1000, MaxCrashes in "
+                                          "0..1000 and unbounded naturals for the counters")
+
+
 @prop("C17", "model_checking")
 def c17(res, tier, seed, replay):
     if replay:
@@ -32,6 +69,10 @@ def c17(res, tier, seed, replay):
                             "a dead cached connection counted as an attempt: the last attempt returns nil without sending")
     expect_design_violation(res, "Rpc", "Rpc.dup.cfg", "AtMostOnce",
                             "documented design observation: a retry after an rpc timeout can execute the request twice (slow servers are outside C17's fault list)")
+    # unbounded argument for the retry loop: Apalache checks that IndInv (which contains NilMeansExecuted) holds initially
+    # and is preserved by every step, with the number of retries and the crash budget left open (1..1000 / 0..1000) and
+    # unbounded counters; the same check with "a dead connection counts as an attempt" must be refuted
+    apalache_inductive(res)
     # one connection carrying several calls at once (net/rpc + the MessagePack codec): a call is completed only by
     # the server's answer to that call, and a refused call concerns nobody else
     design_check(res, "RpcMux", "RpcMux.cfg" if tier == "quick" else "RpcMux.deep.cfg")
